@@ -2,7 +2,7 @@
 import os
 import vlib
 
-MC = 'INIT Init\nNEXT Next\nCONSTANTS Part = "%s" Step = %d NChunks = 64\nINVARIANTS DirInv InvInv Emit\nCHECK_DEADLOCK FALSE\n'
+MC = 'INIT Init\nNEXT Next\nCONSTANTS Part = "%s" Step = %d NChunks = 64\nINVARIANTS DirInv InvInv EllInv Emit\nCHECK_DEADLOCK FALSE\n'
 TC = 'INIT Init\nNEXT Next\nCONSTANTS Prop = "%s"\nPOSTCONDITION Summary\nCHECK_DEADLOCK FALSE\n'
 
 
@@ -14,7 +14,8 @@ def to_rows(vals):
 
 
 def run(ctx, prop, parts, laws):
-    """parts: subset of ('dir', 'inv'); laws: list of (kind, n_quick, n_thorough)."""
+    """parts: subset of ('dir', 'inv', 'ell'); laws: list of (kind, n_quick, n_thorough), kind in dl il al (base ellipsoid
+    family) and dx ix ax (extended family and regimes)."""
     step = 15 if ctx.quick else 1
     exe = vlib.build_driver('drv_geod', 'plain')
     exe_rec = exe if ctx.quick else vlib.build_driver('drv_geod', 'san')
@@ -26,6 +27,13 @@ def run(ctx, prop, parts, laws):
         raise vlib.FrameworkError('expected 8 symmetry group elements, got %d' % len(syms))
     symfile = ctx.path('sym.txt')
     vlib.write_lines(symfile, [[s['sw'], s['ls'], s['ms'], s['as'], s['ao'], s['ss']] for s in syms])
+    # --- the table of public overloads and line-constructor forms from GeodOverloads (consistency model-checked)
+    ov = ctx.generate('MC_GeodOverloads', 'MC_GeodOverloads', workers=2, timeout=600)
+    rows = sorted([v for v in ov if v[0] == 'ovl'], key=lambda v: (v[1], v[2])) + sorted([v for v in ov if v[0] == 'ctor'], key=lambda v: v[1])
+    if len([v for v in rows if v[0] == 'ovl']) != 33 or len([v for v in rows if v[0] == 'ctor']) != 8:
+        raise vlib.FrameworkError('expected 33 overload rows and 8 constructor forms, got %d vectors' % len(ov))
+    ovlfile = ctx.path('ovl.txt')
+    vlib.write_lines(ovlfile, rows)
     # --- lattice
     allrows = []
     for part in parts:
@@ -36,7 +44,7 @@ def run(ctx, prop, parts, laws):
     ctx.cov['behaviours_replayed'] = len(allrows)
     traces = []
     trace = ctx.path('trace.ndjson')
-    rc, err = ctx.drive(exe, ['replay'], infile=vin, outfile=trace)
+    rc, err = ctx.drive(exe, ['replay', ovlfile], infile=vin, outfile=trace)
     if rc != 0:
         ctx.violation('driver crashed replaying lattice vectors (rc=%d): %s' % (rc, err[-500:]),
                       [{'e': 'ReplayHeader', 'property': prop, 'law': 'no-crash', 'vectors': vin}])
@@ -44,7 +52,7 @@ def run(ctx, prop, parts, laws):
         traces.append(trace)
     for kind, nq, nt in laws:
         rt = ctx.path('trace-%s.ndjson' % kind)
-        rc, err = ctx.drive(exe_rec, ['record', ctx.seed, nq if ctx.quick else nt, symfile, kind], outfile=rt)
+        rc, err = ctx.drive(exe_rec, ['record', ctx.seed, nq if ctx.quick else nt, symfile, kind, ovlfile], outfile=rt)
         if rc != 0:
             ctx.violation('driver crashed on random %s records (rc=%d): %s' % (kind, rc, err[-500:]),
                           [{'e': 'ReplayHeader', 'property': prop, 'law': 'no-crash', 'seed': ctx.seed}])
